@@ -57,14 +57,21 @@ def run_case(cs, ctx):
     lc.contracts_on(ctx)
     from matchingproblems.solver import Solver
     rng = random.Random(cs)
-    spec = sp.make_spec(rng, max_s=rng.choice([1, 2, 4, 4, 6]), max_p=rng.choice([1, 3, 4, 6]), max_l=4)
+    if cs % 20 == 7:
+        spec = sp.make_big_spec(rng)
+        ctx.cov('big_two_digit_ids_both_sides')
+    else:
+        spec = sp.make_spec(rng, max_s=rng.choice([1, 2, 4, 4, 6]), max_p=rng.choice([1, 3, 4, 6]), max_l=4)
     twopl = rng.random() < 0.6
     exp = expected(spec, twopl)
     case = {'cs': cs, 'spec': spec, 'twopl': twopl}
     snaps = []
     for variant in range(3):
         second = True if twopl else (variant != 1)
-        text = sp.render(spec, rng=rng, second_side=second, noise=variant > 0, info_block=(variant != 2))
+        exotic = variant == 2 and cs % 7 == 0      # form feed / vertical tab are whitespace for str.split()
+        if exotic:
+            ctx.cov('exotic_whitespace_variant')
+        text = sp.render(spec, rng=rng, second_side=second, noise=variant > 0, info_block=(variant != 2), exotic_ws=exotic)
         path = en.write_file(ctx.workdir, text, 'v%d.txt' % variant)
         argv = ['-f', path, '-na', str(spec['na'])] + (['-twopl'] if twopl else [])
         case['file'] = text
